@@ -115,4 +115,36 @@ def ExtCanon : ExtComm → Prop
       (t ∈ [128, 129, 130] → v.getD 0 0 ∉ [6, 7, 8, 9] ∧ ¬ (v.getD 0 0 = 10 ∧ v.getD 1 0 = 19))
   | .noApiMessage _ => False
 
+/-! ## IPv6-address-specific extended communities (20 octets, attribute type 25) -/
+
+/-- ParseIP6Extended(data) (with parseIP6FlowSpecExtended for type 0x80): fewer than 20 octets is
+    the only error; types 0x00 / 0x40 are IPv6AddressSpecificExtended, 0x80 with sub-type 0x0b the
+    FlowSpec redirect, everything else UnknownIP6Extended with the 19 octets after the type -/
+def decIp6Ext (data : Bytes) : Option Ip6ExtComm :=
+  if data.length < 20 then none else
+  let d := data.take 20
+  let t := at' d 0
+  if t == 0 then some (.specific (at' d 1) ((d.drop 2).take 16) (rd16 (d.drop 18)) true)
+  else if t == 64 then some (.specific (at' d 1) ((d.drop 2).take 16) (rd16 (d.drop 18)) false)
+  else if t == 128 && at' d 1 == 11 then some (.redirect ((d.drop 2).take 16) (rd16 (d.drop 18)))
+  else some (.unknown t ((d.drop 1).take 19))
+
+def decIp6ExtsAux : Nat → Bytes → Option (List Ip6ExtComm)
+  | 0, _ => some []
+  | fuel + 1, v =>
+    if v.length < 20 then some [] else
+    match decIp6Ext v with
+    | none => none
+    | some e => (decIp6ExtsAux fuel (v.drop 20)).map (e :: ·)
+
+/-- PathAttributeIP6ExtendedCommunities.DecodeFromBytes on the attribute value -/
+def decIp6Exts (v : Bytes) : Option (List Ip6ExtComm) :=
+  if v.length % 20 != 0 then none else decIp6ExtsAux v.length v
+
+def Ip6Canon : Ip6ExtComm → Prop
+  | .specific st addr la _ => st < 256 ∧ addr.length = 16 ∧ (∀ x ∈ addr, x < 256) ∧ la < 65536
+  | .redirect addr la => addr.length = 16 ∧ (∀ x ∈ addr, x < 256) ∧ la < 65536
+  | .unknown t v => t < 256 ∧ t ≠ 0 ∧ t ≠ 64 ∧ v.length = 19 ∧ (∀ x ∈ v, x < 256) ∧
+      (t = 128 → v.getD 0 0 ≠ 11)
+
 end WireExt
